@@ -365,6 +365,14 @@ KNOWN = [
         "witness": "a = { 'b'..'a' }",
     },
     {
+        "key": "int-digit-limit",
+        "property": "C10",
+        "what": "key=int-digit-limit a slice index or repetition bound written with more than 4300 digits (leading zeros "
+                "included) is rejected with \"number too large\" whatever its value, because int() refuses the conversion; "
+                "PEEK[-000...01..] with 4300 zeros is valid pest (the index is -1)",
+        "witness": "a = { PEEK[-" + "0" * 4300 + "1..] }",
+    },
+    {
         "key": "doc-comment-keeps-leading-blank",
         "property": "C10",
         "what": "key=doc-comment-keeps-leading-blank the optional blank after \"///\" or \"//!\" belongs to the marker in "
@@ -732,10 +740,10 @@ def has_overflowing_number(text: str, pairs: str) -> bool:
     while stack:
         q = stack.pop()
         if q[0] in ("number", "integer"):
-            digits = text[q[1] : q[2]].lstrip("-")
-            if len(digits) > 10 or int(digits) > (0xFFFFFFFF if q[0] == "number" else 0x80000000):
-                if len(digits.lstrip("0")) > 9 or q[0] == "number":
-                    return True
+            digits = text[q[1] : q[2]].lstrip("-").lstrip("0")
+            limit = 0xFFFFFFFF if q[0] == "number" else 0x80000000
+            if len(digits) > 10 or int(digits or "0") > limit:
+                return True
         if q[0] not in ("string", "character", "identifier"):
             stack.extend(q[3])
     return False
@@ -774,6 +782,8 @@ def judge_c10(text: str, answer: str, answer_balanced):
             return "agree", None           # no such code point: nothing to build (pest fails too)
         if s in ("number_overflow", "number_too_large") and has_overflowing_number(text, pairs):
             return "agree", None           # pest's reader of the parse tree rejects it too
+        if s == "number_too_large" and re.search(r"\d{4301}", text):
+            return "known:int-digit-limit", None
         if s == "range_order" and has_reversed_range(text, pairs):
             return "known:reversed-range-rejected", None
         if answer_balanced() == "fail":
